@@ -9,8 +9,8 @@ TRACKING_ITEMS = [["utm_source", "tw"], ["utm_campaign", "x y"], ["UTM_MEDIUM", 
                   ["phpsessionid", "abc"], ["jsessionid", "A1"], ["sessionid", "9"], ["_ga", "2.1"], ["igshid", "x"], ["ref", "fb"], ["ref", "twitter"],
                   ["source", "twitter"], ["m", "1"], ["s", "09"], ["mtm_kwd", "k"], ["at_medium", "c"], ["xtor", "AD-1"], ["echobox", None],
                   ["feature", "share"], ["__twitter_impression", "true"], ["spref", "tw"], ["platform", "hootsuite"], ["sid", "1"], ["mkt_tok", "e"]]
-AMP_ITEMS = [["amp", None], ["amp", "1"], ["amp_js_v", "0.1"], ["outputtype", "amp"], ["output", "amp"], ["mode", "amp"]]
-LOOKALIKE_ITEMS = [["\u017fid", "5"], ["\u017fource", "twitter"], ["\u212aey", "1"], ["source", "twit"], ["source", ""], ["source", None], ["source", "t"], ["ref", "f"], ["ref", ""], ["ref", None], ["m", ""], ["m", None], ["s", ""], ["s", None],
+AMP_ITEMS = [["amp", None], ["amp", "1"], ["amp_js_v", "0.1"], ["outputtype", "amp"], ["output", "amp"], ["mode", "amp"], ["marfeeltn", "amp"], ["Mode", "amp"]]
+LOOKALIKE_ITEMS = [["mkt_to\u212a", "1"], ["utm_\u212aey", "v"], ["\u017fid", "5"], ["\u017fource", "twitter"], ["\u212aey", "1"], ["source", "twit"], ["source", ""], ["source", None], ["source", "t"], ["ref", "f"], ["ref", ""], ["ref", None], ["m", ""], ["m", None], ["s", ""], ["s", None],
                    ["utm", "1"], ["utmx", "1"], ["ref", "other"], ["s", "123"], ["s", "ab"], ["m", "2"], ["source", "rss"], ["xfbclid", "1"],
                    ["sessionids", "1"], ["at", "1"], ["amplify", "1"], ["output", "xml"], ["gaa", "1"], ["features", "1"]]
 PER_DOMAIN_ITEMS = [["t", "10s"], ["si", "abc"], ["_rdr", None], ["_rdc", "1"], ["ab_channel", "X"]]   # irrelevant on youtube / facebook only
